@@ -22,6 +22,8 @@ DEFS = [
     "struct VP { x: Int }",
     "enum VE { VA, VB(Int) }",
     "method vm(this: VP) { this.x }",
+    "fun vok2(a: Int, b: Int, c: Int, d: Int): Int { a + d }",
+    "struct VP2 { x: Int, y: Int, z: Int }",
     "let vg = 10",
     "import \"__fs.gdn\" as fs",
 ]
@@ -39,6 +41,9 @@ ERR_D0 = ["print(1)", "1 + \"s\"", "vnosuch", "assert(1 == 2)", "if 1 { 2 }", "f
           "while True { let vw = 1 throw(\"w\") }", "for vi in [1, 2] { if vi == 2 { 1 + None } }",
           "match Some(1) { Some(vq) => { vq + \"s\" } None => 0 }", "[1, vnosuch, 3]", "vok(1 + vnosuch)",
           "None.or_throw()", "todo()", "\"\u00e9\u2603\" + 1", "let v\u00e9 = 1", "fun(): VNoTy { 1 }()", "return vnosuch"]
+ERR_OPERANDS = ["vok2(10, 20, 1 + \"\", 30)", "[10, 20, vnosuch, 30]", "7 + (8 * (1 + \"s\"))", "VP2{ x: 1, y: 1 + \"\", z: 3 }",
+                "vok2(1, \"s\", 3, 4)", "vok2(1, 2, 3, vf0())", "(1, 2, vnosuch)", "for vi in [1, 2] { vok2(vi, 2, 1 + \"\", 4) }",
+                "[1, 2].map(fun(x) { vok2(x, 2, None + 1, 4) })", "\"a\".replace(\"b\", 1 + \"\")"]
 ERR_D1 = ["vf0()", "vok(vf0())", "VP{ x: \"s\" }.vm()", "[1, 2].map(fun(x) { x + \"s\" })", "fun() { let vc = 1 vnosuch }()"]
 ERR_D3 = ["vf2(1)", "vf3(2)", "1 + vf3(3)", "[vf3(1)]", "for vi in [1] { vf2(vi) }"]
 PARSE_ERR = ["1 +", "fun (", "let = 3", "\"unterminated", "}", "(((", "fun f( { }", "\u00e9\u00e9 \u2603", "\u00a0", "'", "\\",
@@ -96,6 +101,7 @@ class Gen:
     def __init__(self, rng):
         self.rng = rng
         self.n = 0
+        self.queue = []
 
     def fresh(self):
         self.n += 1
@@ -122,6 +128,26 @@ class Gen:
 
     def step(self):
         r = self.rng
+        if self.queue:
+            return self.queue.pop(0)
+        k = r.random()
+        if k < 0.05:
+            # error with operands pending -> idle interrupt -> something that evaluates -> :skip/:replace/:resume run
+            first = {"k": "req", "label": "run:err-operands", "body": run(r.choice(ERR_OPERANDS), self.fresh())}
+            q = [{"k": "interrupt", "label": "interrupt"}]
+            ev = r.choice([":replace 5", ":resume", "1 + 2", ":test vt_pass", ":type vg", ":replace vnosuch"])
+            q.append({"k": "req", "label": ("cmd:" + ev.split(" ")[0] + ("+arg" if " " in ev else "")) if ev.startswith(":") else "run:ok",
+                      "body": run(ev, self.fresh())})
+            for _ in range(r.randint(1, 3)):
+                c = r.choice([":skip", ":skip", ":skip", ":replace 7", ":resume"])
+                q.append({"k": "req", "label": "cmd:" + c.split(" ")[0] + ("+arg" if " " in c else ""), "body": run(c, self.fresh())})
+            self.queue = q
+            return first
+        if k < 0.08:
+            c = r.choice([":skip", ":skip", ":resume", ":replace 7"])
+            self.queue = [{"k": "req", "label": "cmd:" + c.split(" ")[0] + ("+arg" if " " in c else ""), "body": run(c, self.fresh())}
+                          for _ in range(r.randint(1, 2))]
+            return {"k": "interrupt", "label": "interrupt"}
         k = r.random()
         if k < 0.05:
             return {"k": "req", "label": "cmd::test+arg", "body": run(":test " + r.choice(["vt_pass", "vt_pass", "vt_pass", "vt_loaded"]), self.fresh())}
@@ -254,6 +280,21 @@ SCRIPTED = [
     ["verif_none()", ":replace fun() { 1 }", ":resume"], ["return vnosuch", ":resume", ":skip"],
     ["for vi in [1, 2] { let vk = vi vok.vnosuch(1) }", ":skip", ":skip", ":skip"],
     ["for vi in [1, 2] { vok(vi, 1) }", ":skip", ":resume", ":skip"], ["[vf0(), 1]", ":skip", ":skip"],
+    # an error that leaves several evaluated operands on the value stack, then an idle interrupt, then a command that
+    # evaluates (and is interrupted at its first step), then :skip / :replace / :resume
+    ["vok2(10, 20, 1 + \"\", 30)", "@interrupt", ":replace 5", ":skip", ":skip", "1 + 2"],
+    ["vok2(10, 20, 1 + \"\", 30)", "@interrupt", ":resume", ":skip", ":skip", ":skip", "1 + 2"],
+    ["[10, 20, vnosuch, 30]", "@interrupt", ":replace 5", ":skip", ":skip", ":resume", "vg"],
+    ["[10, 20, 1 + None, 30]", "@interrupt", "1 + 2", ":skip", ":skip", ":skip"],
+    ["7 + (8 * (1 + \"s\"))", "@interrupt", ":replace 1", ":skip", ":replace 2", ":skip", ":resume"],
+    ["VP2{ x: 1, y: 1 + \"\", z: 3 }", "@interrupt", ":resume", ":skip", ":skip", "vg"],
+    ["VP2{ x: 1, y: \"s\", z: 3 }", "@interrupt", ":replace 5", ":skip", ":skip", ":skip"],
+    ["vok2(1, 2, 3, vf0())", "@interrupt", ":resume", ":skip", ":skip", ":skip", ":skip"],
+    ["vok2(1, \"s\", 3, 4)", "@interrupt", ":test vt_pass", ":skip", ":skip", ":resume"],
+    ["print(1)", "@interrupt", ":replace \"s\"", ":skip", ":skip"], ["assert(1 == 2)", "@interrupt", ":resume", ":skip", ":skip", ":skip"],
+    ["for vi in [1, 2] { vok2(vi, 2, 1 + \"\", 4) }", "@interrupt", ":replace 5", ":skip", ":skip", ":skip", ":resume"],
+    ["vok2(10, 20, 1 + \"\", 30)", "@interrupt", "@interrupt", ":replace 5", ":resume", ":skip", ":skip"],
+    ["Dict[\"a\" => 1, 2 => 3]", "@interrupt", ":type vg", ":skip", ":skip"],
     # repeated :test at the toplevel (each finished test frame hands its value to the toplevel value stack)
     [":test vt_pass", ":test vt_pass"], [":test vt_pass", ":test vt_pass", ":test vt_pass", ":test vt_pass", "1 + 2"],
     [":test vt_pass", "1 + 2", "let vafter = 3", ":test vt_pass", "vafter", ":test vt_pass", ":resume"],
@@ -269,6 +310,9 @@ def scripted_history(i):
     g = Gen(random.Random(i))
     steps = setup_steps(g)
     for src in SCRIPTED[i]:
+        if src == "@interrupt":
+            steps.append({"k": "interrupt", "label": "interrupt"})
+            continue
         label = ("cmd:" + src.split(" ")[0] + ("+arg" if " " in src else "")) if src.startswith(":") else "run"
         steps.append({"k": "req", "label": label, "body": run(src, g.fresh())})
     return steps
